@@ -503,6 +503,9 @@ def impl_answers(names, keyed_base, keyed_queries, system, weakly=False, pmaxsat
         with warnings.catch_warnings():
             warnings.simplefilter("ignore")
             m = InferenceManager(bb, system, pmaxsat_solver=pmaxsat, weakly=weakly)
+            if inf_kw.pop("_warmup", False) and keyed_queries:
+                # an earlier call on the same manager (its first query alone) must not change what the batch gets
+                m.inference(make_queries(names, keyed_queries[:1]))
             df = m.inference(qs, **inf_kw)
         return ("ok", [bool(x) for x in df["result"]])
     except AssertionError as e:  # preprocess_belief_base refuses via assert
